@@ -1372,3 +1372,112 @@ theorem wakeLoop_updates {S : Scheds} {v : Nat} {e : Entry} :
       · exact List.mem_cons_of_mem _ (ih h')
 
 end Kit.CronSched
+
+namespace Kit.CronSched
+
+theorem step_log_grows {S : Scheds} {s s' : State} {l : Label} (h : step S s l = some s') :
+    ∃ new, s'.log = new ++ s.log := by
+  cases l with
+  | add sid => rcases step_add_inv h with ⟨_, _, rfl⟩ | ⟨_, rfl⟩ <;> exact ⟨[], rfl⟩
+  | remove id => rcases step_remove_inv h with ⟨_, _, rfl⟩ | ⟨_, rfl⟩ <;> exact ⟨[], rfl⟩
+  | snapshot => obtain ⟨rfl, _⟩ := step_snapshot_inv h; exact ⟨[], rfl⟩
+  | start => rcases step_start_inv h with ⟨_, rfl⟩ | ⟨_, rfl⟩ <;> exact ⟨[], rfl⟩
+  | stop => rcases step_stop_inv h with ⟨_, _, rfl⟩ | ⟨_, rfl⟩ <;> exact ⟨[], rfl⟩
+  | advance t => obtain ⟨_, ⟨tm, _, rfl⟩ | ⟨_, rfl⟩⟩ := step_advance_inv h <;> exact ⟨[], rfl⟩
+  | boot => obtain ⟨_, rfl⟩ := step_boot_inv h; exact ⟨_, rfl⟩
+  | refresh =>
+    rcases step_refresh_inv h with ⟨_, rfl⟩ | ⟨_, _, _, rfl⟩
+    · exact ⟨[], rfl⟩
+    · exact ⟨[_], rfl⟩
+  | arm => obtain ⟨_, rfl⟩ := step_arm_inv h; exact ⟨[], rfl⟩
+  | wake => obtain ⟨_, _, _, _, rfl⟩ := step_wake_inv h; exact ⟨_, rfl⟩
+  | jobBegin i => obtain ⟨_, _, _, rfl⟩ := step_jobBegin_inv h; exact ⟨[], rfl⟩
+  | jobDone i => obtain ⟨_, _, _, _, rfl⟩ := step_jobDone_inv h; exact ⟨[], rfl⟩
+  | ctxWait k => obtain ⟨_, rfl⟩ := step_ctxWait_inv h; exact ⟨[], rfl⟩
+
+theorem runFrom_log_grows {S : Scheds} (h : List Label) :
+    ∀ {s s' : State}, runFrom S s h = some s' → ∃ new, s'.log = new ++ s.log := by
+  induction h with
+  | nil => intro s s' hr; simp [runFrom] at hr; subst hr; exact ⟨[], rfl⟩
+  | cons l ls ih =>
+    intro s s' hr
+    simp only [runFrom] at hr
+    cases hl : step S s l with
+    | none => simp [hl] at hr
+    | some s1 =>
+      rw [hl] at hr
+      obtain ⟨n1, h1⟩ := step_log_grows hl
+      obtain ⟨n2, h2⟩ := ih hr
+      exact ⟨n2 ++ n1, by rw [h2, h1, List.append_assoc]⟩
+
+theorem lastRec_append (id : Nat) (a b : List Rec) :
+    lastRec id (a ++ b) = (lastRec id a).or (lastRec id b) := by
+  unfold lastRec
+  exact List.find?_append
+
+/-- Everything recorded for an entry after a record `p` of it has a basis at least `p`'s, and
+every later launch is for an activation strictly after `p`'s basis. -/
+theorem chain_after {S : Scheds} (hS : WB S) {id : Nat} {older : List Rec} {p : Rec}
+    (hp : lastRec id older = some p) :
+    ∀ {newer : List Rec}, ChainOK S (newer ++ older) →
+      ∀ r ∈ newer, r.id = id → p.basis ≤ r.basis ∧ (r.isRun = true → p.basis < r.act) := by
+  intro newer
+  induction newer with
+  | nil => intro _ r hr; cases hr
+  | cons r0 rest ih =>
+    intro hc r hr hrid
+    have hc' : RecOK S r0 (lastRec r0.id (rest ++ older)) ∧ ChainOK S (rest ++ older) := hc
+    obtain ⟨hrok, hcold⟩ := hc'
+    rcases List.mem_cons.1 hr with rfl | hr'
+    · -- the previous record of this id has basis ≥ p.basis
+      have hprev : ∃ q, lastRec id (rest ++ older) = some q ∧ p.basis ≤ q.basis := by
+        rw [lastRec_append]
+        cases hq : lastRec id rest with
+        | none => exact ⟨p, by simp [hp], Nat.le_refl _⟩
+        | some q =>
+          obtain ⟨hqm, hqid⟩ := lastRec_mem hq
+          exact ⟨q, by simp, (ih hcold q hqm hqid).1⟩
+      obtain ⟨q, hq, hpq⟩ := hprev
+      rw [hrid, hq] at hrok
+      cases r with
+      | sched i sd t a =>
+        have := (hrok.2 q rfl).2
+        exact ⟨Nat.le_trans hpq this, by intro h; simp [Rec.isRun] at h⟩
+      | run i sd a w c =>
+        obtain ⟨q2, hq2, _, ha, hnz, haw, _⟩ := hrok
+        cases hq2
+        have hlt : q.basis < a := by
+          rcases hS sd q.basis with h0 | hlt
+          · exact absurd (ha.trans h0) hnz
+          · omega
+        refine ⟨?_, fun _ => ?_⟩
+        · show p.basis ≤ w; omega
+        · show p.basis < a; omega
+    · exact ih hcold r hr' hrid
+
+theorem filter_map_id_of_nodup (f : Entry → Rec) (hf : ∀ e, (f e).id = e.id) {e : Entry} :
+    ∀ {l : List Entry}, (l.map (·.id)).Nodup → e ∈ l →
+      (l.map f).filter (fun r => r.id == e.id) = [f e] := by
+  intro l
+  induction l with
+  | nil => intro _ h; cases h
+  | cons x xs ih =>
+    intro hn he
+    simp only [List.map_cons, List.nodup_cons] at hn
+    simp only [List.map_cons, List.filter_cons, hf]
+    rcases List.mem_cons.1 he with rfl | he'
+    · simp only [beq_self_eq_true, if_true]
+      congr 1
+      rw [List.filter_eq_nil_iff]
+      intro r hr
+      obtain ⟨y, hy, rfl⟩ := List.mem_map.1 hr
+      simp only [hf, beq_iff_eq]
+      intro heq
+      exact hn.1 (heq ▸ List.mem_map_of_mem hy)
+    · have hne : (x.id == e.id) = false := by
+        simp only [beq_eq_false_iff_ne]
+        intro heq
+        exact hn.1 (heq ▸ List.mem_map_of_mem he')
+      simp only [hne, Bool.false_eq_true, if_false]
+      exact ih hn.2 he'
+end Kit.CronSched
